@@ -231,15 +231,16 @@ def build_job(r, ext):
     return inp, dict(files=files, fail_at=fail_at, rets=rets, ncmd=ncmd, envars=envars)
 
 
-def run_job(inp, d, real):
-    """executes; returns (exit status, path of .out)"""
+def run_job(inp, d, real, rel=False):
+    """executes; returns (exit status, path of .out).  rel: the job file, output and scratch directories are named relative to the working directory"""
     jobf = os.path.join(d, "the_job.inp")
     inp.dump(jobf)
     outdir = os.path.join(d, "outputs")
     scratch = os.path.join(d, "scratch")
+    a_job, a_out, a_scr = ("the_job.inp", "outputs", os.path.join(".", "scratch")) if rel else (jobf, outdir, scratch)
     if real:
         exe = os.path.join(os.path.dirname(sys.executable), "_molli_run")
-        p = subprocess.run([exe, jobf, "-o", outdir, "-s", scratch], capture_output=True, text=True, timeout=300, env=dict(os.environ), cwd=d)
+        p = subprocess.run([exe, a_job, "-o", a_out, "-s", a_scr], capture_output=True, text=True, timeout=300, env=dict(os.environ), cwd=d)
         return p.returncode, os.path.join(outdir, "the_job.out"), scratch
     pid = os.fork()
     if pid == 0:
@@ -248,7 +249,7 @@ def run_job(inp, d, real):
             devnull = os.open(os.devnull, os.O_WRONLY)
             os.dup2(devnull, 2)
             os.chdir(d)
-            sys.argv = ["_molli_run", jobf, "-o", outdir, "-s", scratch]
+            sys.argv = ["_molli_run", a_job, "-o", a_out, "-s", a_scr]
             from molli.pipeline.runner import run_local
 
             try:
@@ -277,7 +278,7 @@ def check_exec(r) -> list[Fail]:
     os.environ["VF_A"], os.environ["VF_B"], os.environ["VF_C"] = "parentA", "parentB", "inherited, never overridden"
     try:
         inp, exp = build_job(r, ext)
-        status, outf, scratch = run_job(inp, d, r["real"])
+        status, outf, scratch = run_job(inp, d, r["real"], rel=bool(r.get("rel")))
         via = "_molli_run" if r["real"] else "run_local(fork)"
         if status in (70, 71) and not r["real"]:
             raise HarnessError("forked run_local could not start")
@@ -382,7 +383,7 @@ def strat_exec(tier):
         "files": st.lists(st.tuples(st.sampled_from(["text", "bin"]), st.integers(0, 400)).map(list), max_size=3),
         "rets": st.lists(st.tuples(st.integers(0, 3), st.booleans()).map(list), max_size=3),
         "env": st.one_of(st.none(), st.tuples(st.sampled_from(["jobA", "x y", ""]), st.sampled_from(["jobB", "é"])).map(list)),
-        "real": st.just(False) if tier == "quick" else st.just(True),
+        "real": st.just(False) if tier == "quick" else st.just(True), "rel": st.booleans(),
     })
 
 
@@ -392,7 +393,7 @@ def enum_exec_real(tier, shard, nshards):
     cases = []
     for fa in (None, 0, 1, 2):
         for rets in ([[2, False]], [[0, False], [2, True]], []):
-            cases.append(dict(base, cmds=cmds, fail_at=fa, rets=rets))
+            cases.append(dict(base, cmds=cmds, fail_at=fa, rets=rets, rel=bool(len(cases) % 2)))
     for i, c in enumerate(cases):
         if i % nshards == shard:
             yield c
@@ -405,6 +406,6 @@ LEGS = [
     Leg("exec_real", check_exec, classify_exec, enumerate=enum_exec_real, exhaustive=True, shards={"quick": 12, "thorough": 12},
         rule="12 fixed jobs (3 commands; first failure at none/0/1/2 x return-file plans) through the real _molli_run executable"),
     Leg("exec", check_exec, classify_exec, strategy=strat_exec, n={"quick": 400, "thorough": 1500}, shards={"quick": 16, "thorough": 16},
-        rule="generated jobs: 1-4 sh commands (named / unnamed, stdout / stderr text), first failing command at every position or none, 0-3 text / binary input files, env override or inherited, 0-3 requested files each created at some command or missing; "
+        rule="generated jobs: 1-4 sh commands (named / unnamed, stdout / stderr text), first failing command at every position or none, 0-3 text / binary input files, env override or inherited, 0-3 requested files each created at some command or missing, job / output / scratch paths absolute or relative to the working directory; "
              "run_local() in a forked child (quick) / real _molli_run (thorough); non-trivial = failure not at command 0 of >=2, or a missing return file, or a binary file"),
 ]
